@@ -401,6 +401,22 @@ func nonDebugRefs(v ssa.Value) []ssa.Instruction {
 // the block of the store after it).
 func (fx *Facts) aliasesOf(v ssa.Value) []ssa.Value {
 	out := []ssa.Value{v}
+	// a variable kept in registers: the phis the value flows into may hold it
+	seenPhi := map[*ssa.Phi]bool{}
+	var phis func(x ssa.Value, d int)
+	phis = func(x ssa.Value, d int) {
+		if d > 4 {
+			return
+		}
+		for _, ref := range nonDebugRefs(x) {
+			if p, ok := ref.(*ssa.Phi); ok && !seenPhi[p] {
+				seenPhi[p] = true
+				out = append(out, p)
+				phis(p, d+1)
+			}
+		}
+	}
+	phis(v, 0)
 	for _, ref := range nonDebugRefs(v) {
 		st, ok := ref.(*ssa.Store)
 		if !ok || st.Val != v {
@@ -438,9 +454,23 @@ func (fx *Facts) aliasesOf(v ssa.Value) []ssa.Value {
 				}
 			}
 		}
+		if otherStore {
+			// the variable is assigned elsewhere too (`err = f()` in one case of a switch, tested after it):
+			// a load the store can reach may see this value
+			for _, bb := range fn.Blocks {
+				if bb == b || !fx.info(fn).reachable(b, bb) {
+					continue
+				}
+				for _, in := range bb.Instrs {
+					if ld, ok := in.(*ssa.UnOp); ok && ld.Op == token.MUL && fx.ownerCell(ld.X) == cell {
+						out = append(out, ld)
+					}
+				}
+			}
+		}
 		if !otherStore {
 			for _, bb := range fn.Blocks {
-				if bb == b || !b.Dominates(bb) {
+				if bb == b || !fx.info(fn).reachable(b, bb) {
 					continue
 				}
 				for _, in := range bb.Instrs {
@@ -583,4 +613,28 @@ func (cx *Ctx) fnCallingStorage(method string) *ssa.Function {
 		}
 	}
 	return nil
+}
+
+func pkgOfNamed(t types.Type) *types.Package {
+	if n := namedOf(t); n != nil {
+		return n.Obj().Pkg()
+	}
+	return nil
+}
+
+// iterationCanSkip: block S lies in a loop and an iteration of that loop can be completed without passing S
+// (a `continue`, a conditional body).
+func iterationCanSkip(fi *fnInfo, S *ssa.BasicBlock) bool {
+	if !fi.reachable(S, S) {
+		return false
+	}
+	for _, B := range fi.fn.Blocks {
+		if B == S || !fi.reachable(S, B) || !fi.reachable(B, S) {
+			continue
+		}
+		if reachAvoidingBlock(B, B, S) {
+			return true
+		}
+	}
+	return false
 }
